@@ -20,11 +20,13 @@ variable {F : Type} [Field F] [DecidableEq F]
 /-- the column held by an `r × 1` Mathlib matrix -/
 def colVec {r : Nat} (C : Matrix (Fin r) (Fin 1) F) : Fin r → F := fun i => C i 0
 
+omit [DecidableEq F] in
 theorem colVec_mul {r k : Nat} (P : Matrix (Fin r) (Fin k) F) (C : Matrix (Fin k) (Fin 1) F) :
     colVec (P * C) = P *ᵥ colVec C := by
   funext i
   simp [colVec, Matrix.mul_apply, Matrix.mulVec, dotProduct]
 
+omit [DecidableEq F] in
 theorem colVec_add {r : Nat} (C D : Matrix (Fin r) (Fin 1) F) : colVec (C + D) = colVec C + colVec D := rfl
 
 /-- a list stored as a column -/
@@ -172,7 +174,8 @@ theorem List.mapM_except_ok {α β ε : Type} (f : α → Except ε β) :
         exact .cons hx (List.mapM_except_ok f xs ys hxs)
 
 namespace St
-variable {F : Type} [Scalar F]
+-- none of these facts uses the arithmetic of `F` (they hold for any `F`, in particular under `[Scalar F]`)
+variable {F : Type}
 
 theorem mem_getOutTo (a b : St F) (p : PinRef) :
     p ∈ a.getOutTo b ↔ ∃ q, (p, q) ∈ a.conn ∧ b.group.contains q.1 = true := by
